@@ -5,7 +5,7 @@ from ..acceptors_r2 import acc_C16, make_running_observer
 from ..explore_r import Scenario, S, mkcfg, bl, sl, bm, sm
 from ..scenarios_r import CL
 
-WIT = ["time0_price_moved_by_trades_in_step0", "halt_after_multi_fill_round", "halt_triggered", "second_halt_of_a_rule", "resumed_after_halt", "halted_step", "halt_running_into_session_end",
+WIT = ["two_rules_on_one_market", "time0_price_moved_by_trades_in_step0", "halt_after_multi_fill_round", "halt_triggered", "second_halt_of_a_rule", "resumed_after_halt", "halted_step", "halt_running_into_session_end",
        "order_or_cancel_accepted_during_halt", "fill_below_halt_line", "non_target_market_running", "complete_runs"]
 RULE = ("session shapes x halt lengths x target sets (one or two markets, one or two rules) around base programs that walk the "
         "price across the first and second halt line, with all deviations of schedules and agent programs within the bound "
@@ -99,6 +99,19 @@ def scenarios(tier):
         name = "halt:trades_in_step0-L%d" % L
         sc[name] = Scenario(name, mkcfg([S(0, 7, True, True, maxNormalOrders=2, events=["H"])], markets=[dict(name="M0")], agents=ags, events=ev),
                             observer=make_running_observer(), meta=dict(halt_rules=[dict(targets=["M0"], r=0.25, L=L)]))
+    # a two-tier breaker: two rules on the SAME market with different rates and halt lengths; the path crosses the
+    # first rule's line (125), is resumed, then crosses only the second rule's line (140)
+    for L2 in (2, 3):
+        mn = menu(1) + [[bl(0, 140)], [sl(0, 140)]]
+        k = len(mn)
+        pa = [0, 1, 0, 0, k - 2, 0, 0, 5, 0]
+        pb = [0, 2, 0, 0, k - 1, 0, 0, 6, 0]
+        ags = [dict(name="A0", menu=mn, program=pa, markets=["M0"]), dict(name="A1", menu=mn, program=pb, markets=["M0"])]
+        ev = {"H1": {"class": "TradingHaltRule", "targetMarkets": ["M0"], "triggerChangeRate": 0.25, "haltingTimeLength": 1},
+              "H2": {"class": "TradingHaltRule", "targetMarkets": ["M0"], "triggerChangeRate": 0.375, "haltingTimeLength": L2}}
+        name = "halt:two_tier-L%d" % L2
+        sc[name] = Scenario(name, mkcfg([S(0, 9, True, True, maxNormalOrders=2, events=["H1", "H2"])], markets=[dict(name="M0")], agents=ags, events=ev),
+                            observer=make_running_observer(), meta=dict(halt_rules=[dict(targets=["M0"], r=0.25, L=1), dict(targets=["M0"], r=0.375, L=L2)]))
     return sc
 
 
